@@ -322,6 +322,10 @@ func c09SockSession(args []string, _ []byte) string {
 func init() { workerHandlers["c09sock"] = c09SockSession }
 
 func c09Socket(rt *rapid.T) {
+	if !everyNth("c09Socket", 1, 6) {
+		return
+	}
+	defer noteFailure()
 	rec := stats.For("C09")
 	v := rapid.SampledFrom(allVersions).Draw(rt, "version")
 	comps := []string{"", "LZ4", "SNAPPY"}
